@@ -333,10 +333,40 @@ fn cmd_gen(args: &[String]) {
                 })));
             }
         }
+        // per-call environment (restored afterwards)
+        let mut saved_env: Vec<(String, Option<String>)> = vec![];
+        if let Some(envs) = &case.env {
+            for (k, v) in envs {
+                saved_env.push((k.clone(), std::env::var(k).ok()));
+                match v {
+                    Some(v) => std::env::set_var(k, v),
+                    None => std::env::remove_var(k),
+                }
+            }
+        }
         let oc = call_generator(&src, &case.opts, detail, budget);
+        for (k, v) in saved_env {
+            match v {
+                Some(v) => std::env::set_var(&k, v),
+                None => std::env::remove_var(&k),
+            }
+        }
         if case.fmt_plan.is_some() {
             std::env::set_var("PATH", &orig_path);
             wgsl_to_wgpu::verif::set_sync(None);
+        }
+        // a formatter process that was spawned must have been reaped when the call returns (Format.tla: the parent waits in every branch)
+        let mut zombie = false;
+        if case.opts.rustfmt {
+            let mut status: libc::c_int = 0;
+            let r = unsafe { libc::waitpid(-1, &mut status, libc::WNOHANG) };
+            // r > 0: an unreaped child existed; r == 0: a child is still running; -1 (ECHILD): no children at all
+            zombie = r >= 0;
+            if r == 0 {
+                // give a still-running orphan the chance to end, then collect it so that later calls are not blamed
+                std::thread::sleep(std::time::Duration::from_millis(50));
+                unsafe { libc::waitpid(-1, &mut status, libc::WNOHANG) };
+            }
         }
         for h in &oc.hooks {
             // hook lines are already JSON; pass through the sanitiser
@@ -348,6 +378,9 @@ fn cmd_gen(args: &[String]) {
         let mut obs = Map::new();
         obs.insert("ev".into(), json!("obs"));
         obs.insert("id".into(), json!(case.id));
+        if zombie {
+            obs.insert("zombie".into(), json!(true));
+        }
         obs.insert("ret".into(), oc.ret.clone());
         obs.insert("work".into(), json!(oc.work.to_vec()));
         obs.insert("micros".into(), json!(oc.micros as u64));
